@@ -30,8 +30,8 @@ func init() {
 func runC05(c *engine.Ctx) {
 	r1 := c.Rule("R1", "single retire function: deletes the entry, unprotects (entry.peer, id.Tag()), cancels the context, ends the span", 1)
 	r2 := c.Rule("R2", "every Protect is followed on all paths by storing the response under the same ID and peer", 1)
-	r3 := c.Rule("R3", "each retire call in an executor-error handler is under context-cancel (with the cancelled listeners) or network-error; cancelled listeners only there", 5)
-	r4 := c.Rule("R4", "subscriber: terminate iff terminal code (Sent and Error); CloseWithNetworkError on every Error; completed listeners on Sent+terminal", 4)
+	r3 := c.Rule("R3", "each retire call in an executor-error handler is under context-cancel (with the cancelled listeners) or network-error; cancelled listeners only there", 2)
+	r4 := c.Rule("R4", "subscriber: terminate iff terminal code (Sent and Error); CloseWithNetworkError on every Error; completed listeners on Sent+terminal", 2)
 	r5 := c.Rule("R5", "a response is stored only where no live entry exists for its ID", 1)
 
 	m := loadMgr(c, r1, "responsemanager")
